@@ -93,7 +93,7 @@ func genBuffer(seed uint64, deep bool) *BufPlan {
 	}
 	p.Slices = r.IntN(2) == 0
 	if r.IntN(4) == 0 {
-		p.MaxSize = []int{64, 100, 128, 500, 1000, 5000, 20000}[r.IntN(7)]
+		p.MaxSize = []int{1, 8, 9, 64, 100, 128, 500, 1000, 5000, 20000}[r.IntN(10)]
 	}
 	nops := 5 + r.IntN(60)
 	if deep {
@@ -691,7 +691,9 @@ func runBuffer(plan *BufPlan, dir string) (res *RunResult) {
 			t.maxSlices = len(t.slices)
 		}
 		// the limit is never exceeded
-		if plan.MaxSize > 0 && t.buf.LenWithPadding() > plan.MaxSize {
+		// (a limit below the 8 bytes of padding every buffer starts with is exceeded
+		// from the start by the padding alone; what must not happen is growth)
+		if plan.MaxSize > 0 && t.buf.LenWithPadding() > plan.MaxSize && t.buf.LenWithPadding() > 8 {
 			t.violate("max-size-exceeded", fmt.Sprintf("used length %d exceeds the limit %d", t.buf.LenWithPadding(), plan.MaxSize))
 		}
 		if t.buf.LenWithPadding() != t.modelLen() && !stop {
